@@ -3,7 +3,7 @@ import time
 from . import common as C
 from . import handles as H
 from . import design as D
-import os
+import os, json
 
 ASSUME_HANDLES = [
     "TLC and the CommunityModules JSON reader are correct",
@@ -262,7 +262,58 @@ def config_check(prop, tier, seed):
     return rc
 
 
+ASSUME_HOSTILE = [
+    "TLC is correct; the ledger allocator (red zones, poison, exact-free check), the guard bytes around fixed destinations and the process exit status are the observers: an out-of-bounds READ is seen only if the bytes it returns reach the output (the script buffer's backing data ends at a red zone)",
+    "the hostile objects are ScriptBuf (answers per call from the script, honest and empty afterwards, cut off after 200 extra polls), iterators with arbitrary size hints, and AsRef owners that answer differently per call or panic",
+]
+
+
+def hostile_check(prop, tier, seed):
+    from . import hostile as X
+    t0 = time.time()
+    q = tier == "quick"
+    scripts, st = X.model("C17_model", 5 if q else 7, 4 if q else 10, seed)
+    cs = X.cases(scripts, seed, 2500 if q else 60000)
+    results = [X.run("C17_release", cs, "release"), X.run("C17_debug", cs[:900] if q else cs, "debug")]
+    rc, nnew, shown = 0, 0, set()
+    for r in results:
+        for v in r["violations"]:
+            laws = [l for (p, l) in v["laws"] if p == prop]
+            if not laws:
+                continue
+            nnew += 1
+            key = (v["consumer"], tuple(laws))
+            if key in shown or len(shown) >= 5:
+                continue
+            shown.add(key)
+            case = r["cases"][v["pid"]]
+            path = C.save_replay(prop, "%s_c%d" % (r["tag"], v["pid"]), {"property": prop, "kind": "hostile", "laws": laws, "case": case, "profile": r["profile"]})
+            print("VIOLATION property=%s replay=%s" % (prop, path))
+            print("  law(s) %s violated by consumer %s with script %s (n=%s d=%s), build %s" % (",".join(laws), v["consumer"], json.dumps(case["script"])[:200], case["n"], case["d"], r["profile"]))
+            rc = 1
+    counts = {}
+    for r in results:
+        for k, n in r["counts"].items():
+            counts[k] = counts.get(k, 0) + n
+    cov = {
+        "evaluations": sum(r["events"] for r in results),
+        "distinct_nontrivial": len({(c["consumer"], json.dumps(c["script"]), c["n"], c["d"]) for c in cs}),
+        "rule": "one evaluation = one crate entry point driven with one fault schedule (script of lying remaining()/chunk()/advance()/chunks_vectored() answers "
+                "enumerated by TLC from spec/Hostile.tla, or a lying size hint / owner) in one build; distinct = distinct (consumer, script, sizes)",
+        "samples": [{"consumer": c["consumer"], "script": c["script"], "n": c["n"], "d": c["d"]} for c in cs[-3:]],
+        "states": st["distinct"], "transitions": st["generated"],
+        "fault_schedules_from_model": len(scripts),
+        "consumer_and_outcome_counts": counts,
+        "crashes_isolated": sum(r["crashes"] for r in results),
+        "exhaustive": False,
+    }
+    C.write_evidence(prop, tier, seed, "fault_enumeration", cov, ASSUME_HOSTILE, time.time() - t0, nnew)
+    return rc
+
+
 def run(prop, tier, seed):
+    if prop == "C17":
+        return hostile_check(prop, tier, seed)
     if prop == "C16":
         return config_check(prop, tier, seed)
     if prop == "C18":
